@@ -126,8 +126,23 @@ def Op.rejected : Op → Bool
   | .item _ _ _ _ _ out => out != .ok
   | .origin _ _ _ _ out => out != .ok
 
-/-- C20 (first half, one step): a rejected call leaves every object, origin reference, copy number and the file
-header's origin untouched; only a set key may have been created, and it has no objects -/
+/-- C20 (first half, one step): a rejected call changes nothing at all -/
+theorem rejected_is_identity (w : World) (op : Op) (h : op.rejected = true) : step w op = w := by
+  cases op with
+  | item lf kind sn name oref out =>
+    simp only [Op.rejected] at h
+    simp only [step]
+    split
+    · rfl
+    · cases out <;> simp_all [addItem]
+  | origin lf sn name oref out =>
+    simp only [Op.rejected] at h
+    simp only [step, addOrigin]
+    split
+    · rfl
+    · cases out <;> simp_all
+
+/-- … in particular every object, origin reference, copy number and the file header's origin -/
 theorem rejected_keeps_items (w : World) (op : Op) (h : op.rejected = true) :
     (step w op).items = w.items ∧ (step w op).headerOrigin = w.headerOrigin := by
   cases op with
@@ -291,15 +306,15 @@ theorem step_RegInv (w : World) (op : Op) (hlf : op.lf < w.keys.length) (h : Reg
         simp only [Item.key]
         rw [lfKeys_touch w lf lf (kind, sn) hlf]
         simp [mem_insertKey]
-      · exact ht
-      · exact ht
+      · exact h
+      · exact h
   | origin lf sn0 name oref out =>
     simp only [Op.lf] at hlf
     simp only [step, addOrigin]
     generalize normName sn0 = sn
     have ht := RegInv_touch w lf (0, sn) hlf h
     split
-    · exact ht
+    · exact h
     · cases out
       · simp only
         have ha : RegInv (appendItem (touchKey w lf (0, sn))
@@ -311,8 +326,8 @@ theorem step_RegInv (w : World) (op : Op) (hlf : op.lf < w.keys.length) (h : Reg
         split
         · exact RegInv_backfill _ _ _ ha
         · exact ha
-      · exact ht
-      · exact ht
+      · exact h
+      · exact h
 
 theorem RegInv_init (n : Nat) : RegInv (World.init n) := by
   refine ⟨?_, ?_, by simp [World.init]⟩
